@@ -8,7 +8,7 @@ cd "$HERE"
 /venv/bin/python tools/py2v.py "$REPO" || true     # a failed translation leaves a non-compiling Gen file (fail closed)
 tools/mkproject.sh
 cd coq
-timeout 1800 make -j16 >build.log 2>&1 || { tail -30 build.log; exit 1; }
+timeout 900 make -j16 >build.log 2>&1 || { tail -30 build.log; exit 1; }
 if [ model.ml -nt extract/model_driver ] || [ extract/driver.ml -nt extract/model_driver ] || [ ! -x extract/model_driver ]; then
   cp model.ml model.mli extract/
   (cd extract && ulimit -s unlimited 2>/dev/null; ocamlfind ocamlopt -O3 -w -a -package str model.mli model.ml driver.ml -o model_driver 2>/dev/null || ocamlfind ocamlopt -w -a model.mli model.ml driver.ml -o model_driver)
